@@ -174,7 +174,7 @@ def fold(eng, ver, name):
     if name in ver.cache:
         return ver.cache[name]
     F = FOLDS[name]
-    if ver.ksort != F.ksort:
+    if ver.ksort != F.ksort and name != "size":
         raise Unsupported("fold %s on a dict of another key sort" % name)
     kind = ver.kind
     if kind == "empty":
@@ -603,3 +603,23 @@ def valsin_of(eng, ver, lo, hi):
             eng.facts.add(z3.Implies(z3.And(oval, lo <= lo2, hi2 <= hi), r))
             eng.facts.add(z3.Implies(z3.And(r, lo2 <= lo, hi <= hi2), oval))
     return r
+
+
+def maxkey_of(eng, ver, default):
+    """max(d, default=default) for an int-keyed dict: the default for an empty dict, otherwise a key that is >= every
+    key (bound instantiated at the integer keys the path looks up; callers of the contracts compare the same term)"""
+    tag = ("maxkey", default if isinstance(default, int) else default.get_id())
+    if tag in ver.cache:
+        return ver.cache[tag]
+    if ver.ksort != T.Int:
+        raise Unsupported("max of the keys of a dict that is not int-keyed")
+    eng.nfresh += 1
+    m = z3.Int("maxkey_%d!%d" % (ver.n, eng.nfresh))
+    sz = size_of(eng, ver)
+    d = z3.IntVal(default) if isinstance(default, int) else default
+    eng.facts.add(z3.Implies(sz == 0, m == d))
+    eng.facts.add(z3.Implies(sz > 0, z3.Select(ver.dom, m)))
+    ver.cache[tag] = m
+    for (k, v) in ver.picked:
+        eng.facts.add(z3.Implies(z3.Select(ver.dom, k), k <= m))
+    return m
